@@ -147,6 +147,10 @@ int hx_desc_changed(const IMB_JOB *ret, const IMB_JOB *snap, int *info);
 
 /* random spec from a named kind; returns 0 if unknown */
 int hx_spec_from_kind(const char *kind, hx_rng *r, hx_spec *sp);
+/* random spec for an explicit suite; order 0 = documented default */
+int hx_spec_for(int cm, int kl, int ha, int dir, int order, hx_rng *r, hx_spec *sp);
+int hx_any_keylen(int cm);
+int hx_hash_known(int ha);
 /* list of kind names usable on every variant */
 extern const char *const hx_kinds[];
 extern const int hx_nkinds;
